@@ -147,8 +147,8 @@ func genExhaustive(c *vf.Ctx, maxLen int, startNo int) []*schedule {
 }
 
 func run(c *vf.Ctx) {
-	c.Rule("a case = one schedule run against a fresh db.OpenSwappable database: 160 (quick) / 3000 (thorough) random schedules of 12 (quick) / 16 (thorough) steps over {write txn of 1-40 rows (insert/update/delete), reader start, reader stop, incremental checkpoint attempt optionally starting/stopping a reader at ckpt.after_compact and/or ckpt.after_sqlite, VACUUM, nil-writer attempt} with up to 3 harness-owned readers, plus every word of length <=4 (quick) / <=6 (thorough) over {W, toggle reader 0, toggle reader 1, C}; each schedule ends with all readers stopped and a closing attempt. non-trivial = the schedule produced at least one blocked outcome (busy, or all pages moved but WAL not truncated) and a later successful attempt was compared; distinct by (steps, outcomes)")
-	c.Assume("plain SQLite (stock driver) checkpointing a captured segment onto the previous snapshot is the reference for what the segment contains; readers are harness-owned connections on the same file in the same process; no write runs concurrently with an attempt (the manager's stated contract)")
+	c.Rule("a case = one schedule run against a fresh db.OpenSwappable database: 160 (quick) / 3000 (thorough) random schedules of 12 (quick) / 16 (thorough) steps over {write txn of 1-40 rows (insert/update/delete), reader start, reader stop, incremental checkpoint attempt optionally starting/stopping a reader at ckpt.after_compact and/or ckpt.after_sqlite, VACUUM, nil-writer attempt} with up to 3 harness-owned readers, plus every word of length <=4 (quick) / <=6 (thorough) over {W, toggle reader 0, toggle reader 1, C}; each schedule ends with all readers stopped and a closing attempt. Store level: 8 (quick) / 120 (thorough) schedules of 7/12 rounds on a real single-node Store: 1-3 write transactions, harness readers placed before the last write and/or after all writes, Store.Snapshot(0), readers released or kept; at the end the node is restarted from its snapshot store. non-trivial = the schedule produced at least one blocked outcome (busy, or all pages moved but WAL not truncated) and a later successful attempt was compared; distinct by (steps, outcomes)")
+	c.Assume("plain SQLite (stock driver) checkpointing a captured segment onto the previous snapshot is the reference for what the segment contains; readers are harness-owned connections on the same file in the same process; no write runs concurrently with an attempt (the manager's stated contract); after a failed nil-writer (full snapshot) attempt every following attempt is a nil-writer attempt until one succeeds, as the store keeps a full snapshot due")
 	c.Assume("timing: blocked attempts wait a 25 ms busy timeout; outcomes are decided by which readers exist, not by the clock")
 
 	tmp := vf.TempDir("c06")
@@ -178,7 +178,7 @@ func run(c *vf.Ctx) {
 	scheds = append(scheds, ex...)
 	c.Extra("exhaustive_subspace", fmt.Sprintf("all %d words of length <=%d over {W,A,B,C}", len(ex), maxWord))
 
-	nw := 8
+	nw := 4
 	jobs := make(chan *schedule, 16)
 	var wg sync.WaitGroup
 	var smu sync.Mutex
@@ -243,7 +243,7 @@ func run(c *vf.Ctx) {
 				for _, o := range res.Outcomes {
 					if o == "C:busy" || o == "C:partial" || o == "F:failed" {
 						blocked = true
-					} else if blocked && (o == "C:truncated" || o == "final:truncated" || o == "C:partial") {
+					} else if blocked && (o == "C:truncated" || o == "final:truncated" || o == "C:partial" || o == "F:ok" || o == "final:ok") {
 						later = true
 					}
 				}
@@ -278,12 +278,93 @@ func run(c *vf.Ctx) {
 	close(jobs)
 	wg.Wait()
 	c.Extra("distinct_attempt_outcome_sequences", len(outcomeSeqs))
+	runStoreLevel(c, tmp, work)
 	c.Require(int64(c.N(200, 4000)), c.N(60, 1500))
-	if c.Counter("compares") < int64(c.N(300, 6000)) || c.Counter("partial_all_moved") < 10 || c.Counter("busy") < 10 ||
+	if c.Counter("store_restores_compared") < int64(c.N(4, 60)) || c.Counter("store_failed_staging_unchanged") < int64(c.N(4, 60)) ||
+		c.Counter("compares") < int64(c.N(300, 6000)) || c.Counter("partial_all_moved") < 10 || c.Counter("busy") < 10 ||
 		c.Counter("wal_resets_between_attempts") < 5 || c.Counter("wal_appends_between_attempts") < 5 {
 		c.Inconclusive("monitor saw too few compared attempts / blocked outcomes / reset-vs-append forks")
 		c.Require(1<<40, 1<<30)
 	}
+}
+
+// runStoreLevel drives the store-level schedules (see storeworker.go).
+func runStoreLevel(c *vf.Ctx, tmp, work string) {
+	nS := c.N(8, 120)
+	rounds := c.N(7, 12)
+	var scheds []*storeSchedule
+	for i := 0; i < nS; i++ {
+		r := c.Rand(uint64(1<<41) + uint64(i))
+		s := &storeSchedule{No: i, Seed: r.Uint64()}
+		for j := 0; j < rounds; j++ {
+			rd := storeRound{Writes: 1 + r.IntN(3), Reader: []string{"none", "old", "latest", "latest", "both"}[r.IntN(5)], Release: "after"}
+			if r.IntN(3) == 0 {
+				rd.Release = "keep"
+			}
+			s.Rounds = append(s.Rounds, rd)
+		}
+		scheds = append(scheds, s)
+	}
+	jobs := make(chan *storeSchedule, len(scheds))
+	for _, s := range scheds {
+		jobs <- s
+	}
+	close(jobs)
+	var wg sync.WaitGroup
+	for w := 0; w < 3; w++ {
+		wg.Add(1)
+		go func(w int) {
+			defer wg.Done()
+			logPath := filepath.Join(tmp, fmt.Sprintf("storeworker%d.log", w))
+			for s := range jobs {
+				// one process per schedule: a Store that hits log.Fatal must
+				// not take the other schedules with it
+				p, err := vf.StartWorker(false, "c06store", nil, []string{"TMPDIR=" + work}, logPath)
+				if err != nil {
+					c.Inconclusive("store worker could not be started")
+					continue
+				}
+				var res result
+				err = p.Call(s, &res, 180*time.Second)
+				p.Kill()
+				c.Eval(1)
+				c.Count("store_schedules", 1)
+				if err != nil {
+					c.Inconclusive("store worker " + err.Error())
+					c.Logf("store schedule %d: %v (see %s)", s.No, err, logPath)
+					continue
+				}
+				for k, v := range res.Counts {
+					c.Count(k, v)
+				}
+				if res.HarnessErr != "" {
+					c.Inconclusive("store harness: " + firstWords(res.HarnessErr))
+					c.Logf("store schedule %d: harness error: %s", s.No, res.HarnessErr)
+					continue
+				}
+				if len(res.Viol) > 0 {
+					for _, v := range res.Viol {
+						c.Violation(v.Key, fmt.Sprintf("store schedule %d outcomes %v: %s", s.No, res.Outcomes, v.What), map[string]any{"store_schedule": s, "outcomes": res.Outcomes})
+					}
+					continue
+				}
+				c.Held(1)
+				failed, ok := false, false
+				for _, o := range res.Outcomes {
+					if o == "S:failed" {
+						failed = true
+					} else if failed && (o == "S:ok" || o == "S:final-ok") {
+						ok = true
+					}
+				}
+				if failed && ok {
+					b, _ := json.Marshal(s)
+					c.Nontrivial("store|" + string(b) + "|" + strings.Join(res.Outcomes, ","))
+				}
+			}
+		}(w)
+	}
+	wg.Wait()
 }
 
 func firstWords(s string) string {
